@@ -436,6 +436,9 @@ func moveOutFile(w *bytes.Buffer, param *syntax.StructMember,
 		return err
 	} else if info.Mode()&os.ModeSymlink != 0 {
 		if err := os.MkdirAll(outsPath, 0775); err != nil {
+			if _, err := w.Write(value); err != nil {
+				return err
+			}
 			return err
 		}
 		// The source is a symlink, so we will put a symlink in outs/
@@ -467,6 +470,9 @@ func moveOutFile(w *bytes.Buffer, param *syntax.StructMember,
 		return err
 	}
 	if err := os.MkdirAll(outsPath, 0775); err != nil {
+		if _, err := w.Write(value); err != nil {
+			return err
+		}
 		return err
 	}
 	// If source file exists, move it to outs/
